@@ -187,6 +187,60 @@ def work(sc):
             "sample": {"scenario": list(sc), "choices": logs[0][1], "log": logs[0][2]} if logs else None}
 
 
+def real_library_runs(ctx):
+    """Conformance of the stub world: a REAL embedded library (built by cffi from the working tree,
+    real CPython, real pthreads released by a barrier) must show behaviour the stub-world exploration
+    also produced at the granularity init-start / init-end / results.  Returns (runs, mismatches)."""
+    import sysconfig
+    d = os.path.join(build.scratch(), "c28real")
+    os.makedirs(d, exist_ok=True)
+    env = dict(os.environ)
+    p = subprocess.run([build.PY, os.path.join(build.HARNESS, "c28_real", "build_lib.py"), d], env=env,
+                       stdout=subprocess.PIPE, stderr=subprocess.STDOUT, text=True)
+    if p.returncode != 0:
+        raise InfraError("cannot build the real embedded library:\n" + p.stdout[-2000:])
+    libdir = sysconfig.get_config_var("LIBDIR")
+    exe = os.path.join(d, "main")
+    p = subprocess.run(["gcc", "-pthread", os.path.join(build.HARNESS, "c28_real", "main.c"), "-o", exe, "-L", d,
+                        "-lc28real", "-Wl,-rpath," + d, "-Wl,-rpath," + libdir],
+                       stdout=subprocess.PIPE, stderr=subprocess.STDOUT, text=True)
+    if p.returncode != 0:
+        raise InfraError("cannot link the real embedding main:\n" + p.stdout[-2000:])
+    runs = 0
+    bad = []
+    reps = 2 if ctx.quick else 10
+    for kind in ("ok", "fail", "recursive", "slow"):
+        for n in (1, 2, 3):
+            for rep in range(reps):
+                log = os.path.join(d, "log-%s-%d-%d.txt" % (kind, n, rep))
+                env2 = dict(env, C28_KIND=kind, C28_LOG=log,
+                            PYTHONPATH=env.get("PYTHONPATH", "") + os.pathsep + d)
+                p = subprocess.run([exe, str(n)], env=env2, stdout=subprocess.PIPE, stderr=subprocess.PIPE,
+                                   text=True, timeout=120)
+                runs += 1
+                try:
+                    lines = open(log).read().split()
+                except OSError:
+                    lines = []
+                results = [int(l.split()[1]) for l in p.stdout.splitlines() if l.startswith("result ")]
+                again = [int(l.split()[1]) for l in p.stdout.splitlines() if l.startswith("again ")]
+                want = 0 if kind == "fail" else 8
+                problems = []
+                if p.returncode != 0:
+                    problems.append("exit status %s" % p.returncode)
+                if open(log).read().count("init-start") != 1 if os.path.exists(log) else True:
+                    problems.append("init code ran %d times" % (open(log).read().count("init-start") if os.path.exists(log) else 0))
+                if results != [want] * n:
+                    problems.append("results %r, expected %r" % (results, [want] * n))
+                if again != [0 if kind == "fail" else 2]:
+                    problems.append("later call returned %r" % (again,))
+                if kind == "recursive" and "recursive-result 4" not in open(log).read():
+                    problems.append("recursive call from the init code did not return 4")
+                if problems:
+                    bad.append({"kind": kind, "threads": n, "problems": problems, "stderr": p.stderr[-300:]})
+    return runs, bad
+
+
 def run(ctx):
     _EXE[0] = build_world()
     scs = scenarios(ctx)
@@ -208,7 +262,11 @@ def run(ctx):
         for v in r["viol"]:
             for clause in v["bad"]:
                 ctx.violation({"clause": clause.split(":")[0], "init": sc[1][:sc[0]]}, v)
+    real_runs, real_bad = real_library_runs(ctx)
+    for b in real_bad:
+        ctx.violation({"clause": "real-embedded-library", "init": b["kind"]}, {"real": True, "what": b})
     cov = {
+        "real_embedded_library_runs": real_runs,
         "states": tot["decisions"],
         "transitions": tot["decisions"],
         "traces_validated_against_impl": tot["executions"],
@@ -229,6 +287,12 @@ def run(ctx):
 
 
 def replay(detail):
+    if detail.get("real"):
+        class _C(object):
+            quick = True
+        runs, bad = real_library_runs(_C())
+        print(runs, bad)
+        return 1 if bad else 0
     exe = build_world()
     sc = detail["scenario"]
     nlibs, kinds, bound, progs = sc
